@@ -1,6 +1,7 @@
 /-
-Witness of defect D16 (C11): on the model of the code **as pinned** (`sorted = false`: the native iterator passes the
-readdir order through), the full statement of `Sqfs.C11.scan_perm_invariant` is false.
+Witness of defect D16 (C11), repaired in /repo by 7ff9210: on the model of the scan path with a native iterator that does
+NOT sort (`sorted = false`: `read_names` without its `qsort` call, i.e. the readdir order is passed through — the code
+before 7ff9210, and what a revert of it would be), the full statement of `Sqfs.C11.scan_perm_invariant` is false.
 
 Directory `{a, b, c}` where `a` and `c` are two names of one inode and `b` is another file:
 enumeration `a, b, c` makes `a` the real file (inode 1, first in the file list) and `c` a link to it;
